@@ -5,14 +5,15 @@
     * the translated 8-bit ycbcr_601 -> rgb formulas are the documented ones (`C18_ycbcr_closed`), always land in [0,255] (`C18_ycbcr_range`), map the nominal black and
       white (16,128,128) / (235,128,128) to (0,0,0) / (255,255,255), and are monotone in y;
     * over exact rationals the hsv -> rgb case split treats hue 1 as hue 0 (`C18_hue_periodic`), every hue selects one
-      of the six handled sectors (`C18_hue_sector`), greys ignore the hue (`C18_grey_ignores_hue`);
+      of the six handled sectors (`C18_hue_sector`), greys ignore the hue (`C18_grey_ignores_hue`), and every channel of the
+      result lies in [0, v] for saturation in [0,1] (`C18_hsv_to_rgb_range`);
     * gray_alpha -> rgba carries the alpha, gray -> rgba sets alpha to max (`C18_gray_alpha`), the premultiplied grey is
       within one unit of g*a/255 (`C18_gray_alpha_premultiplied`);
     * the core 8-bit luminance agrees with the toolbox weights 0.30/0.59/0.11 within 0.52 of a unit (`C18_luminance_agrees`);
     * the two xyz matrices are inverse to each other within 2e-6 (`C18_xyz_matrices_inverse`, over Rat, literals re-read
       from xyz.hpp by the check).
   -- OPEN (not proven): `C18_hsv_roundtrip_exact_arith` / `C18_hsl_roundtrip_exact_arith` (rgb -> hsv -> rgb = id over
-  exact rationals for rgb8 lattice inputs) and the float32 error budget `C18_hsv_roundtrip_u8`: the round trips are
+  exact rationals for rgb8 lattice inputs; the case analysis is sketched in checks/C18.notes.md) and the float32 error budget `C18_hsv_roundtrip_u8`: the round trips are
   carried by the exhaustive, bit-exact correspondence over all 2^24 pixels (partial (float)); xyz / lab companding
   (powf) has no model at all (partial (transcendental)).
 -/
@@ -20,6 +21,8 @@ import GilVerif.Model.C18
 import Mathlib.Tactic.Linarith
 import Mathlib.Tactic.NormNum
 import Mathlib.Tactic.IntervalCases
+import Mathlib.Algebra.Order.Floor.Ring
+import Mathlib.Data.Rat.Floor
 
 namespace GilVerif.Props.C18
 open GilVerif.Gen.C18 GilVerif.Model.C18
@@ -77,6 +80,42 @@ theorem C18_hue_periodic (s v : Rat) : hsvToRgbQ 1 s v = hsvToRgbQ 0 s v := by
 theorem C18_grey_ignores_hue (h v : Rat) : hsvToRgbQ h 0 v = ⟨v, v, v⟩ := by
   unfold hsvToRgbQ
   simp
+
+private theorem frac_bounds (x : Rat) (hx : 0 ≤ x) :
+    0 ≤ x - ((x.floor.toNat : Nat) : Rat) ∧ x - ((x.floor.toNat : Nat) : Rat) < 1 := by
+  have h1 : (⌊x⌋ : Int) = x.floor := rfl
+  have f0 : 0 ≤ x.floor := by rw [← h1]; exact Int.floor_nonneg.mpr hx
+  have e : ((x.floor.toNat : Nat) : Rat) = ((x.floor : Int) : Rat) := by
+    have : ((x.floor.toNat : Nat) : Int) = x.floor := Int.toNat_of_nonneg f0
+    exact_mod_cast this
+  rw [e, ← h1]
+  constructor
+  · linarith [Int.floor_le x]
+  · linarith [Int.lt_floor_add_one x]
+
+/-- for every hue ≥ 0, saturation in [0,1] and value ≥ 0 all three channels of hsv -> rgb lie in [0, v]
+    (so in [0,1] for v ≤ 1): no sector produces an out-of-range channel -/
+theorem C18_hsv_to_rgb_range (h s v : Rat) (hh : 0 ≤ h) (hs : 0 ≤ s ∧ s ≤ 1) (hv : 0 ≤ v) :
+    (0 ≤ (hsvToRgbQ h s v).r ∧ (hsvToRgbQ h s v).r ≤ v) ∧ (0 ≤ (hsvToRgbQ h s v).g ∧ (hsvToRgbQ h s v).g ≤ v)
+    ∧ (0 ≤ (hsvToRgbQ h s v).b ∧ (hsvToRgbQ h s v).b ≤ v) := by
+  obtain ⟨f0, f1⟩ := frac_bounds (h * 6) (by linarith)
+  unfold hsvToRgbQ
+  simp only []
+  generalize h * 6 - (((h * 6).floor.toNat : Nat) : Rat) = fr at *
+  have p0 : 0 ≤ v * (1 - s) := mul_nonneg hv (by linarith)
+  have p1 : v * (1 - s) ≤ v := by nlinarith
+  have q0 : 0 ≤ v * (1 - s * fr) := mul_nonneg hv (by nlinarith)
+  have q1 : v * (1 - s * fr) ≤ v := by nlinarith [mul_nonneg hs.1 f0]
+  have t0 : 0 ≤ v * (1 - s * (1 - fr)) := mul_nonneg hv (by nlinarith)
+  have t1 : v * (1 - s * (1 - fr)) ≤ v := by nlinarith [mul_nonneg hs.1 (show 0 ≤ 1 - fr by linarith)]
+  by_cases hc : ((if s < 0 then -s else s) < 1 / 10000)
+  · simp only [hc, ↓reduceIte]
+    exact ⟨⟨hv, le_refl _⟩, ⟨hv, le_refl _⟩, ⟨hv, le_refl _⟩⟩
+  · simp only [hc, ↓reduceIte]
+    generalize (h * 6).floor.toNat % 6 = i
+    obtain _ | _ | _ | _ | _ | i := i <;> simp only [] <;>
+      exact ⟨⟨by assumption, by first | assumption | exact le_refl _⟩, ⟨by assumption, by first | assumption | exact le_refl _⟩,
+             ⟨by assumption, by first | assumption | exact le_refl _⟩⟩
 
 example : hsvToRgbQ 1 1 1 = ⟨1, 0, 0⟩ ∧ hsvToRgbQ (1/3) 1 1 = ⟨0, 1, 0⟩ ∧ hsvToRgbQ (5/6) (1/2) 1 = ⟨1, 1/2, 1⟩ := by decide +kernel
 
